@@ -97,6 +97,13 @@ class JaqalLexer(Lexer):
         token.value = int(token.value[1:-1], base=2)
         return token
 
+    def error(self, token):
+        """Called by sly for a character no token pattern matches."""
+        col = token.index - self.text.rfind("\n", 0, token.index)
+        raise JaqalParseError(
+            "<string>", self.lineno, col, f"Illegal character {token.value[0]!r}"
+        )
+
 
 class JaqalParser(Parser):
     """Parse Jaqal into core types."""
